@@ -484,13 +484,148 @@ fn mutate(rng: &mut Rng, stream: &mut Vec<u8>) -> &'static str {
 
 /// Whatever redirect the server sends, the calls a caller may make in the Redirect state afterwards - ask
 /// for a new flow, ask again with the other policy when none came, read the status, move on - return.
+/// Long runs of one small unit offered in a SINGLE buffer: interim responses, empty lines, tiny chunks, trailer
+/// lines. Whatever the crate does per unit (loop, recursion, list), the call must return. A stack overflow or an
+/// abort kills the whole process and cannot be caught in it, so every cell runs in a child process of its own
+/// (`deep-input-inner`, through the replay entry of this binary) and the parent judges how the child ended.
+const DEEP_UNITS: [(&str, &[u8]); 6] = [
+    ("100-continue", b"HTTP/1.1 100 Continue\r\n\r\n"),
+    ("102-processing", b"HTTP/1.1 102 Processing\r\n\r\n"),
+    ("103-early-hints", b"HTTP/1.1 103 Early Hints\r\nLink: </s>\r\n\r\n"),
+    ("empty-lines", b"\r\n"),
+    ("tiny-chunks", b"1\r\nx\r\n"),
+    ("trailer-lines", b"T: v\r\n"),
+];
+const DEEP_COUNTS: [usize; 4] = [300, 2_000, 10_000, 40_000];
+
+fn deep_input_inner(idx: u64, rec: &mut Rec) {
+    let (name, unit) = DEEP_UNITS[(idx % 6) as usize];
+    let count = DEEP_COUNTS[(idx / 6 % 4) as usize];
+    let route = idx / 24 % 2;
+    let mut input = Vec::with_capacity(unit.len() * count + 64);
+    let chunked_head = b"HTTP/1.1 200 OK\r\nTransfer-Encoding: chunked\r\n\r\n";
+    let body_case = matches!(name, "tiny-chunks" | "trailer-lines");
+    if name == "trailer-lines" {
+        input.extend_from_slice(b"0\r\n");
+    }
+    for _ in 0..count {
+        input.extend_from_slice(unit);
+    }
+    if body_case {
+        input.extend_from_slice(if name == "tiny-chunks" { &b"0\r\n\r\n"[..] } else { &b"\r\n"[..] });
+    } else {
+        input.extend_from_slice(b"HTTP/1.1 200 OK\r\nContent-Length: 0\r\n\r\n");
+    }
+    rec.ev(|| format!("{} x {} in one buffer of {} bytes, route {}", name, count, input.len(), route));
+    // route 0: a plain GET; route 1: a POST with Expect whose caller gave up waiting (the late-100 path)
+    let f = if route == 0 { Ok(super::c05::recv_flow("GET")) } else { super::c05::recv_flow_via(super::c05::Route::ExpectGaveUp, b"").ok_or("expect route".to_string()) };
+    let mut f = match f {
+        Ok(f) => f,
+        Err(e) => return rec.fail("C12/setup", e),
+    };
+    if body_case {
+        match f.try_response(chunked_head) {
+            Ok((n, Some(_))) if n == chunked_head.len() => {}
+            other => return rec.fail("C12/setup", format!("{:?}", other.map(|v| v.0))),
+        }
+        let mut b = match f.proceed() {
+            Some(ureq_proto::client::flow::RecvResponseResult::RecvBody(b)) => b,
+            _ => return rec.fail("C12/setup", "no body state".into()),
+        };
+        let mut out = vec![0u8; count + 64];
+        let mut used = 0usize;
+        for _ in 0..(count + 8) {
+            rec.call();
+            match b.read(&input[used..], &mut out) {
+                Ok((0, 0)) => break,
+                Ok((c, _)) => used += c,
+                Err(_) => break,
+            }
+            if b.can_proceed() {
+                break;
+            }
+        }
+        rec.cov(&format!("deep-input-inner/{}", name));
+        return;
+    }
+    // heads: keep offering what is left until a final response or nothing moves
+    let mut used = 0usize;
+    for _ in 0..(count + 8) {
+        rec.call();
+        match f.try_response(&input[used..]) {
+            Ok((n, r)) => {
+                used += n;
+                if n == 0 || (r.is_some() && f.can_proceed()) {
+                    break;
+                }
+            }
+            Err(_) => break,
+        }
+    }
+    rec.cov(&format!("deep-input-inner/{}", name));
+}
+
+fn deep_input_case(idx: u64, rec: &mut Rec) {
+    let (name, _) = DEEP_UNITS[(idx % 6) as usize];
+    let count = DEEP_COUNTS[(idx / 6 % 4) as usize];
+    let dir = std::env::var("VERIF_DIR").unwrap_or_else(|_| "/tmp".into());
+    let _ = std::fs::create_dir_all(format!("{}/replays", dir));
+    let path = format!("{}/replays/C12-deep-input-inner-{}.json", dir, idx);
+    if std::fs::write(&path, format!("{{\"property\": \"C12\", \"workload\": \"deep-input-inner\", \"index\": {}, \"seed\": 1}}\n", idx)).is_err() {
+        return rec.stat("deep-input/could-not-write-the-child-description", 1);
+    }
+    let exe = match std::env::current_exe() {
+        Ok(e) => e,
+        Err(_) => return rec.stat("deep-input/no-exe", 1),
+    };
+    rec.call();
+    let out = std::process::Command::new(exe).args(["C12", "--replay", &path]).env("VERIF_DIR", &dir).env("VERIF_REPLAY_LIMIT_S", "120").output();
+    let out = match out {
+        Ok(o) => o,
+        Err(_) => return rec.stat("deep-input/spawn-failed", 1),
+    };
+    rec.ev(|| format!("{} x {} in one buffer, in a process of its own -> {:?}", name, count, out.status));
+    match out.status.code() {
+        Some(0) => {
+            let _ = std::fs::remove_file(&path);
+            rec.cov(&format!("deep-input/{}/returned", name));
+        }
+        Some(1) => {
+            let text = String::from_utf8_lossy(&out.stdout);
+            let sig = text.lines().find(|l| l.trim_start().starts_with("signature:")).map(|l| l.trim().trim_start_matches("signature:").trim().to_string()).unwrap_or_else(|| "C12/deep-input-violation".into());
+            rec.fail(&sig, format!("{} x {} in one buffer: {}", name, count, text.lines().find(|l| l.trim_start().starts_with("what:")).unwrap_or("").trim()));
+        }
+        Some(2) => rec.stat("deep-input/child-could-not-run", 1),
+        _ => {
+            // no exit code: killed by a signal (stack overflow -> SIGSEGV / SIGABRT), or an abort inside the call
+            use std::os::unix::process::ExitStatusExt;
+            let sigl = out.status.signal().unwrap_or(0);
+            let err = String::from_utf8_lossy(&out.stderr);
+            rec.fail(
+                &format!("C12/process-killed-in-a-server-facing-call/{}", name),
+                format!("{} x {} offered in one buffer: the process was killed by signal {} ({}); a call did not return normally; replay the child with {}", name, count, sigl, err.lines().last().unwrap_or("").trim(), path),
+            );
+        }
+    }
+}
+
 fn redirect_calls_case(idx: u64, rec: &mut Rec) {
     use ureq_proto::client::flow::RedirectAuthHeaders;
     let status = [301u16, 302, 303, 307, 308][(idx % 5) as usize];
-    let (method, despite) = [("GET", false), ("POST", false), ("DELETE", false), ("HEAD", false), ("PUT", false), ("GET", true)][(idx / 5 % 6) as usize];
-    let loc: Option<&[u8]> = [Some(&b"http://b.test/abs?x=1"[..]), Some(b"/rel"), None, Some(b"/n\xe9"), Some(b"//c.test"), Some(b"mailto:a@b.test")][(idx / 30 % 6) as usize];
-    let first_policy = if idx / 180 % 2 == 0 { RedirectAuthHeaders::Never } else { RedirectAuthHeaders::SameHost };
+    // (the last two shapes: a body announced with Expect: 100-continue, the second with the Host spelled out)
+    let shape = (idx / 5 % 8) as usize;
+    let (method, despite) = [("GET", false), ("POST", false), ("DELETE", false), ("HEAD", false), ("PUT", false), ("GET", true), ("POST", false), ("PUT", false)][shape];
+    let loc: Option<&[u8]> = [Some(&b"http://b.test/abs?x=1"[..]), Some(b"/rel"), None, Some(b"/n\xe9"), Some(b"//c.test"), Some(b"mailto:a@b.test")][(idx / 40 % 6) as usize];
+    let first_policy = if idx / 240 % 2 == 0 { RedirectAuthHeaders::Never } else { RedirectAuthHeaders::SameHost };
     let mut cfg = ReqCfg::new(method, "http://a.test/start").h("authorization", b"t").h("cookie", b"c=1");
+    if shape >= 6 {
+        cfg.orig.push(("expect".into(), b"100-continue".to_vec()));
+        cfg.orig.push(("content-length".into(), b"3".to_vec()));
+        rec.cov("redirect-calls/request-with-expect");
+    }
+    if shape == 7 {
+        cfg.orig.push(("host".into(), b"a.test".to_vec()));
+    }
     cfg.despite = despite;
     let mut head = format!("HTTP/1.1 {} R\r\n", status).into_bytes();
     if let Some(l) = loc {
@@ -507,7 +642,15 @@ fn redirect_calls_case(idx: u64, rec: &mut Rec) {
     rec.call();
     let res = guarded(move || {
         let mut r = r;
-        let first = r.as_new_flow(first_policy).map(|o| o.is_some());
+        let first = r.as_new_flow(first_policy).map(|o| {
+            // the flow handed out is advanced and its head written: calls made after server input as well
+            o.map(|nf| {
+                let mut s = nf.proceed();
+                let _ = write_head_big(&mut s);
+                let _ = s.can_proceed();
+            })
+            .is_some()
+        });
         let second = if first != Ok(true) {
             let other = if first_policy == RedirectAuthHeaders::Never { RedirectAuthHeaders::SameHost } else { RedirectAuthHeaders::Never };
             Some(r.as_new_flow(other).map(|o| o.is_some()))
@@ -692,12 +835,15 @@ impl Property for P {
             Workload::new("byte-sweeps", 8 * 256, true, "every byte value at 8 head positions and 2 chunk positions"),
             Workload::new("chunk-size-lines", 24 * 8 * 2, true, "chunk size lines of every length 1..=24 x 8 digit patterns x extension"),
             Workload::new("mutations", tier.pick(30_000, 6_000_000), false, "mutated valid exchanges under random schedules"),
-            Workload::new("redirect-calls", 360, true, "5 statuses x 6 request shapes x 6 Locations x 2 policies: every call the Redirect state offers, a declined or failed follow asked again"),
+            Workload::new("deep-input", 6 * 4 * 2, true, "300..40000 copies of one small unit (interim responses, empty lines, one-byte chunks, trailer lines) in a single buffer x 2 routes; each cell in a child process, judged by how the child ended"),
+            Workload::new("redirect-calls", 480, true, "5 statuses x 8 request shapes (two with Expect) x 6 Locations x 2 policies: every call the Redirect state offers, a declined or failed follow asked again"),
             Workload::new("five-close-conditions", 64, true, "HTTP/1.0 + client close + refused 100 + server close + close-delimited"),
         ]
     }
     fn run_case(&self, wl: &str, idx: u64, seed: u64, rec: &mut Rec) {
         match wl {
+            "deep-input" => deep_input_case(idx, rec),
+            "deep-input-inner" => deep_input_inner(idx, rec),
             "alphabet-5" => alphabet_case(idx, 5, rec),
             "alphabet-6" => alphabet_case(idx, 6, rec),
             "alphabet-7" => alphabet_case(idx, 7, rec),
@@ -742,6 +888,10 @@ impl Property for P {
         for t in ["Await100", "Response", "Chunked"] {
             v.push((format!("{}/Err/*", t), 100));
         }
+        for u in ["100-continue", "102-processing", "103-early-hints", "empty-lines", "tiny-chunks", "trailer-lines"] {
+            v.push((format!("deep-input/{}/returned", u), 8));
+        }
+        v.push(("redirect-calls/request-with-expect".to_string(), 50));
         for m in ["field-value-games", "flood-interim", "flood-head", "flood-field", "bit-flip", "deletion", "duplication", "splice", "oversize-number", "stray-crlf", "many-fields", "truncation", "huge-name", "huge-value", "chunk-line-games", "conflicting-fields"] {
             v.push((format!("mutation/{}", m), 100));
         }
